@@ -259,33 +259,39 @@ def main(ctx):
         ctx.exhaustive = True
     # ---- V: merge sites
     events = []
+    ELEM_SITES = ('reindex_fill', 'shift_fill', 'assign_elem', 'frame_assign_elem', 'frame_concat_cols_fill', 'from_records',
+                  'series_from_list', 'series_from_list_rev', 'index_go_append', 'fillna')
+
+    def emit(name, da, db, e):
+        kinds = {np.dtype(da).kind}
+        if name in ELEM_SITES:
+            kinds.add('U' if isinstance(e, str) else 'S' if isinstance(e, bytes) else '-')
+        else:
+            kinds.add(np.dtype(db).kind)
+        if 'U' in kinds and 'S' in kinds:
+            return  # str with bytes: outside the claim
+        if name == 'index_go_append' and (e is None or (isinstance(e, float) and e != e) or (isinstance(e, np.datetime64) and np.isnat(e))):
+            return  # NaN / None labels are outside the claim
+        ev = run_site(name, da, db, e)
+        if ev is None:
+            return
+        ev['id'] = len(events)
+        ev['da'], ev['db'], ev['e'] = da, db, P.enc(e)
+        events.append(ev)
+        ctx.count('V_' + name)
+    # element sites: every dtype x every element value (the second dtype plays no role)
+    for da in DTYPES:
+        for name in ELEM_SITES:
+            for e in ELEMENTS:
+                emit(name, da, DTYPES[0], e)
+    # pair sites: ordered dtype pairs (quick: a seeded sample)
     pairs = list(itertools.product(DTYPES, DTYPES))
     if quick:
-        pairs = ctx.rng.sample(pairs, 220)
+        pairs = ctx.rng.sample(pairs, 250)
     for da, db in pairs:
         for name in sorted(SITES):
-            els = ELEMENTS if not quick else ctx.rng.sample(ELEMENTS, 2)
-            needs_e = name in ('reindex_fill', 'shift_fill', 'assign_elem', 'frame_assign_elem', 'frame_concat_cols_fill', 'from_records',
-                               'series_from_list', 'series_from_list_rev', 'index_go_append', 'fillna')
-            for e in (els if needs_e else [None]):
-                if name == 'index_go_append' and (e is None or (isinstance(e, float) and e != e) or (isinstance(e, np.datetime64) and np.isnat(e))):
-                    continue  # NaN / None labels are outside the claim
-                if needs_e and db != DTYPES[0] and not quick and ctx.rng.random() > 0.15:
-                    continue  # element sites do not depend on the second dtype: sample them
-                kinds = {np.dtype(da).kind, np.dtype(db).kind if not needs_e else np.dtype(da).kind}
-                if needs_e:
-                    kinds.add('U' if isinstance(e, str) else 'S' if isinstance(e, bytes) else '-')
-                if 'U' in kinds and 'S' in kinds:
-                    continue  # str with bytes: outside the claim
-                if (np.dtype(da).kind == 'O' or (not needs_e and np.dtype(db).kind == 'O')) and ('U' in kinds or 'S' in kinds):
-                    pass
-                ev = run_site(name, da, db, e)
-                if ev is None:
-                    continue
-                ev['id'] = len(events)
-                ev['da'], ev['db'], ev['e'] = da, db, P.enc(e)
-                events.append(ev)
-                ctx.count('V_' + name)
+            if name not in ELEM_SITES:
+                emit(name, da, db, None)
     rej = ctx.validate_events('Trace_C07', 'Trace.cfg', events)
     for ev in events:
         if ev['id'] in rej:
